@@ -45,15 +45,15 @@ CODES = {1: 'codebook (embed) differs from embed_avg / smoothed count', 2: 'runn
          3: 'usage count (cluster_size) differs from decay*old + (1-decay)*batch counts', 4: 'initted flag differs', 5: 'a revived code is not a vector of the batch'}
 
 
-def gen_config(rng, thorough):
+def gen_config(rng, thorough, ci=0):
+    """stratified: the cross product metric x head mode x decay class is cycled deterministically, the rest is random"""
     import torch
     from vector_quantize_pytorch import VectorQuantize
+    combos = [(cos, hm) for cos in (False, True) for hm in ((1, False), (2, False), (3, False), (2, True))]
+    cosine, (heads, sep) = combos[ci % len(combos)]
     d = rng.choice([1, 2, 3, 4])
-    heads = rng.choice([1, 1, 2, 3])
-    sep = heads > 1 and rng.random() < 0.5
-    cosine = rng.random() < 0.3
     K = rng.choice([1, 2, 3, 5, 8, 12])
-    decay = rng.choice([0.0, 0.25, 0.5, 0.75, 1.0, 0.8, 0.5, 0.875])
+    decay = [0.5, 0.25, 0.8, 0.0, 0.75, 1.0, 0.875][(ci // len(combos)) % 7]
     kw = dict(dim=d * heads, codebook_size=K, heads=heads, separate_codebook_per_head=sep, codebook_dim=d, use_cosine_sim=cosine,
               decay=decay, threshold_ema_dead_code=0)
     if rng.random() < 0.2:
@@ -68,25 +68,31 @@ def correspond(ctx, scale):
     import torch
     from vlib import impl
     rng = ctx.rng
-    ncfg = (40 if not ctx.thorough else 400) * scale
+    ncfg = (48 if not ctx.thorough else 400) * scale
     cases, meta, failures, samples = [], [], [], []
     evaluations = 0
     nontrivial = set()
     dist = {'euclid': 0, 'cosine': 0, 'masked': 0, 'eval_or_frozen': 0, 'decay1': 0, 'decay0': 0, 'multihead': 0, 'exact_tol0': 0, 'rvq_layers': 0, 'rvq_shared': 0}
     for ci in range(ncfg):
-        vq, kw, d, heads, cosine, K = gen_config(rng, ctx.thorough)
+        vq, kw, d, heads, cosine, K = gen_config(rng, ctx.thorough, ci)
         cb = vq._codebook
         vqrec.set_codebook_grid(vq, rng, dup=rng.random() < 0.2, zero=rng.random() < 0.2)
         dyadic_decay = kw['decay'] != 0.8
-        steps = rng.choice([1, 2, 3, 6]) if not ctx.thorough else rng.choice([1, 2, 4, 8, 30])
+        steps = rng.choice([2, 3, 4, 6]) if not ctx.thorough else rng.choice([2, 4, 8, 30])
         for t in range(steps):
-            b, n = rng.choice([(1, 1), (2, 3), (1, 6), (3, 4), (2, 8)])
+            b, n = rng.choice([(1, 1), (2, 3), (1, 6), (3, 4), (2, 8), (2, 5)])
             x = vqrec.grid(rng, (b, n, d * heads))
             kwargs = {}
-            mode = rng.choice(['train', 'train', 'train', 'train', 'eval', 'frozen'])
-            if rng.random() < 0.3 and n > 1:
-                m = torch.tensor([[rng.random() < 0.7 for _ in range(n)] for _ in range(b)])
-                m[:, 0] = True
+            mode = rng.choice(['train', 'train', 'train', 'train', 'eval', 'frozen']) if t > 0 else 'train'
+            if (t % 2 == ci % 2) and n > 1:
+                # ragged mask: rows differ (lengths differ per sample), padding carries large values
+                lens = [rng.randrange(1, n + 1) for _ in range(b)]
+                if b > 1 and len(set(lens)) == 1:
+                    lens[0] = 1 + (lens[0] % n)
+                m = torch.tensor([[j < lens[i] for j in range(n)] for i in range(b)])
+                if rng.random() < 0.3:
+                    m = torch.tensor([[rng.random() < 0.7 for _ in range(n)] for _ in range(b)])
+                    m[:, 0] = True
                 kwargs['mask'] = m
                 dist['masked'] += 1
             if mode == 'frozen':
